@@ -37,7 +37,9 @@ RULE = (
     "parameters, one-point domains, 0-2 constants, key order different from sorted order; small finite spaces for "
     "exhaustion) x points_to_evaluate (None, [], partial, full, duplicates incl. duplicates by imputation, values given "
     "in another numeric type) x allow_duplicates x history (1-4 workers, arrival policy, 5-60 events, failure plan; "
-    "exhaustion cases up to 150 events; GP kinds, random, grid and regularised evolution also get NaN / +-inf metric "
+    "exhaustion cases up to 150 events; 30-40 % of the random / GP / synchronous-Hyperband histories use the search option "
+    "restrict_configurations (3-12 members of the space; points_to_evaluate drawn from the list at shuffled positions, plus "
+    "configurations outside it, duplicates, the default) and are driven until the list is used up; GP kinds, random, grid and regularised evolution also get NaN / +-inf metric "
     "values: 0-6 % of the reports and 0-40 % of the trials reporting nothing else, most on small finite spaces); 780 histories per quick run, 16 x in the thorough tier. Distinct = digest of (kind, sequence of suggestion tags "
     "initial/new/explore/resume/None with the status of repeated trials, space shape); non-trivial = at least one "
     "suggestion after the initial points."
@@ -77,6 +79,10 @@ ASSUMPTIONS = [
     "None on such a space and the [] check are counted (undecided:*), not judged; two different initial points with "
     "equal match strings make clause 2 undecided for that history",
     "DEHB is run with as many brackets as rungs and without failures (C05-K2, C05-K3); PASHA is not used (C04-K1)",
+    "restricted search (restrict_configurations): the finite space is the list; documented: points_to_evaluate entries outside "
+    "the list are removed; every suggestion must be a member of the list, the remaining initial points come first, each "
+    "member at most once, None only once all members were suggested. The GP searchers raise when asked again after the list "
+    "is used up (finding): most restricted GP histories stop asking then (stopping-type Hyperband, as many trials as members)",
     "non-finite metric values are not given to synchronous Hyperband / DEHB (NaN is their documented encoding of a failed "
     "slot: C05 / C13) and PBT; whatever happened to an earlier trial (failed, finished on NaN / inf, stopped), its "
     "configuration counts as suggested",
@@ -127,6 +133,7 @@ def cases(tier, seed):
 def floors(tier):
     k = 1 if tier == "quick" else 12
     f = {f"post_initial:{kind}": 200 * k for kind in KINDS}
+    f.update({f"restricted_sets_fully_suggested:{kind}": 5 * k for kind in RC_KINDS})
     f.update({
         "pbt_explore_suggestions": 200 * k,
         "gp_model_based_suggestions": 60 * (1 if tier == "quick" else 25),
@@ -146,6 +153,11 @@ def floors(tier):
         "initial:none_default": 80 * k,
         "initial:empty": 40 * k,
         "histories_with_failure": 60 * k,
+        "restricted_sets_fully_suggested": 60 * k,
+        "exhausted_restricted_sets": 20 * k,
+        "decided:in_restricted_set": 400 * k,
+        "initial_from_restricted_list_at_other_position": 80 * k,
+        "initial_outside_restricted_list_dropped": 15 * k,
         "nonfinite_reports": 150 * k,
         "trials_finished_with_nonfinite_metric": 60 * k,
         "no_repeat_after_trial_finished_on_nonfinite_metric": 300 * k,
@@ -567,6 +579,59 @@ def gen_pte(rng, desc, values, lib_mid):
     return pts
 
 
+RC_KINDS = ("random", "bayesopt", "hb_bayesopt", "hypertune", "sync_hb", "direct_random")
+
+
+def gen_rc(seed, desc, space, matchstr):
+    """restrict_configurations: 3-12 different members of the space over the hyperparameter keys (drawn with the
+    domains' own samplers; different also under the library's match string)."""
+    rng = random.Random(seed)
+    hp = [k for k, P in desc.items() if P["ctor"] != CONST]
+    n = rng.randint(3, 12)
+    rs = np.random.RandomState(rng.randrange(2 ** 31))
+    out, seen, seen_ms = [], set(), set()
+    for _ in range(6 * n):
+        cfg = {k: _plain(space[k].sample(random_state=rs)) for k in hp}
+        t = tuple(cfg[k] for k in sorted(hp))
+        ms = matchstr(cfg)
+        if t in seen or ms is None or ms in seen_ms:
+            continue
+        seen.add(t)
+        seen_ms.add(ms)
+        out.append(cfg)
+        if len(out) == n:
+            break
+    return out
+
+
+def gen_pte_rc(rng, rc, desc, values):
+    """points_to_evaluate for a restricted search: entries of the list at shuffled positions, some configurations
+    outside the list (documented: removed), duplicates, the default (None)."""
+    hp = [k for k, P in desc.items() if P["ctor"] != CONST]
+    mode = rng.choice(["none", "empty", "rc", "rc", "rc", "rc", "mixed", "mixed"])
+    if mode == "none":
+        return None
+    if mode == "empty":
+        return []
+    k = rng.randint(1, min(4, len(rc)))
+    if k == len(rc) > 1 and rng.random() < 0.9:
+        k -= 1  # every entry of the list an initial point: rarely (the GP searchers cannot start then, see findings)
+    pts = [dict(c) for c in rng.sample(rc, k)]
+    if len(rc) > 1 and rng.random() < 0.7 and pts[0] == rc[0]:
+        pts[0] = dict(rc[rng.randrange(1, len(rc))])  # an initial point whose position in the list differs from its own
+    for pt in pts:
+        for key in hp:
+            if c07.FAM[desc[key]["ctor"]] == "int" and rng.random() < 0.2 and abs(pt[key]) < 2 ** 52:
+                pt[key] = float(pt[key])  # same configuration, value written as 3.0
+    if mode == "mixed":
+        for _ in range(rng.randint(1, 2)):
+            outside = {key: _member(rng, desc[key], values.get(key)) for key in hp} if rng.random() < 0.7 else {}
+            pts.insert(rng.randint(0, len(pts)), outside)
+        if rng.random() < 0.5:
+            pts.insert(rng.randint(0, len(pts)), dict(rng.choice(pts)))
+    return pts
+
+
 def cast_given(P, g):
     fam = c07.FAM[P["ctor"]]
     if fam == "float":
@@ -642,8 +707,16 @@ class Oracle:
         self.init_path = "initial_points:dehb" if kind == "dehb" else "initial_points"
         self.dehb_base = None  # size of the base rung of DEHB's first bracket
         self.nonfinite_done = set()  # trials that finished (or were stopped / paused) on a NaN / inf metric value
+        self.rc_set = None  # restrict_configurations (tuples): the finite set the searcher is restricted to
         # a finite range whose rounded values collide lists the same value twice (FiniteRange.values)
         self.grid_sfx = ":finite_range_lists_a_value_twice" if any(len(set(v)) < len(v) for v in self.values.values()) else ""
+
+    def set_restricted(self, rc):
+        self.rc_set = {tuple(cast_given(self.desc[k], c[k]) for k in self.hp) for c in rc}
+        self.rc_list = [tuple(cast_given(self.desc[k], c[k]) for k in self.hp) for c in rc]
+        self.size = len(self.rc_set)
+        self.continuous = False
+        self.below_resolution = False
 
     # -- helpers
     def viol(self, clause, mech, detail):
@@ -702,6 +775,14 @@ class Oracle:
             return
         self.ref = reference_initial(self.pte, self.desc, self.lib_mid)
         o = self.o
+        if self.rc_set is not None:
+            # documented (StochasticAndFilterDuplicatesSearcher): points_to_evaluate is filtered to entries of the list
+            full = self.ref
+            self.ref = [(c, g) for c, g in full if tuple(c[k] for k in self.hp) in self.rc_set]
+            o.count("initial_outside_restricted_list_dropped", len(full) - len(self.ref))
+            for j, (c, _) in enumerate(self.ref):
+                if self.rc_list.index(tuple(c[k] for k in self.hp)) != j:
+                    o.count("initial_from_restricted_list_at_other_position")
         if self.continuous and len(self.ref) > 1:
             # two different initial points that agree to 7 significant digits: equal under the library's documented
             # notion of (approximate) equality (Domain.match_string) - whether the later one is a duplicate is
@@ -749,6 +830,11 @@ class Oracle:
                 else:
                     mech = f"{self.kind}:value_outside_domain:{P['ctor']}:{how}"
                 self.viol("typed_member", mech, {"key": k, "value": v, "domain": P, "suggestion": what})
+        if self.rc_set is not None and all(k in cfg for k in self.hp):
+            o.count("decided:in_restricted_set")
+            if self.tpl(cfg) not in self.rc_set:
+                self.viol("typed_member", f"{self.kind}:suggestion_outside_restrict_configurations",
+                          {"config": cfg, "restrict_configurations": sorted(self.rc_set, key=repr)[:20]})
 
     # -- clauses 2, 3 on a new-trial suggestion
     def on_new(self, tid, cfg, status_of, fresh=True, exempt_repeat=False, tag=None):
@@ -868,11 +954,16 @@ class Oracle:
             self.viol("none_only_when_exhausted", f"{self.kind}:none_on_infinite_space", detail)
         elif distinct < self.size and self.below_resolution:
             o.count("undecided:none_on_space_below_match_string_resolution")
+        elif distinct < self.size and self.rc_set is not None:
+            self.viol("none_only_when_exhausted", f"{self.kind}:none_before_exhaustion:restricted_set:{why}",
+                      dict(detail, never_suggested=sorted(self.rc_set - set(self.by_tpl), key=repr)[:10]))
         elif distinct < self.size:
             self.viol("none_only_when_exhausted", f"{self.kind}:none_before_exhaustion:finite_space:{why}", detail)
         else:
             o.count("exhausted_spaces")
             o.count(f"exhausted:{self.kind}")
+            if self.rc_set is not None:
+                o.count("exhausted_restricted_sets")
 
     # -- grid
     def grid_dims(self):
@@ -1155,6 +1246,20 @@ def expand(spec):
     if kind.startswith("direct"):
         p["steps"] = rng.randint(40, 150) if (exhaust or kind == "direct_grid") else rng.randint(5, 60)
     p["pte_seed"] = rng.randrange(2 ** 31)
+    # restricted search (search option restrict_configurations): separate stream, not for reproducer specs
+    r3 = random.Random(spec["seed"] * 40503 % (2 ** 32) + 29)
+    p["restrict"] = kind in RC_KINDS and "space" not in spec and r3.random() < (0.4 if kind in GP_KINDS else 0.3)
+    p["rc_seed"] = r3.randrange(2 ** 31)
+    p["rc_ask_beyond"] = r3.random() < 0.15  # GP kinds: keep asking after the list is used up (see findings)
+    if p["restrict"]:
+        if kind in ("hb_bayesopt", "hypertune") and not p["rc_ask_beyond"]:
+            # pause / resume would ask the searcher again while trials are paused; the GP searchers raise when asked after
+            # the list is used up (see findings), so most restricted histories use the stopping type
+            p["hb"] = dict(p["hb"], type="stopping")
+            p["use_mra"] = False
+        p["max_events"] = max(p["max_events"], r3.randint(50, 150))
+        if kind.startswith("direct"):
+            p["steps"] = max(p["steps"], r3.randint(40, 120))
     # non-finite metric values (NaN / +-inf): a few per cent of the reports and whole trials that report nothing else.
     # Drawn from a separate stream; reproducer specs (explicit space) default to finite metrics unless they say otherwise.
     r2 = random.Random(spec["seed"] * 2654435761 % (2 ** 32) + 17)
@@ -1175,6 +1280,8 @@ def expand(spec):
 
 def _search_options(p, extra=None):
     so = {"debug_log": False}
+    if p.get("rc") is not None:
+        so["restrict_configurations"] = [dict(c) for c in p["rc"]]
     if p.get("allow_duplicates"):
         so["allow_duplicates"] = True
     so.update(extra or {})
@@ -1193,13 +1300,13 @@ def build_scheduler(p, space, pte, seed):
                                  "allow_duplicates": bool(p["allow_duplicates"])})
         return FIFOScheduler(space, searcher="grid", search_options=so, **common)
     if kind == "bayesopt":
-        return FIFOScheduler(space, searcher="bayesopt", search_options=dict(p["search_options"]), **common)
+        return FIFOScheduler(space, searcher="bayesopt", search_options=_search_options(p, p["search_options"]), **common)
     if kind in ("hb_bayesopt", "hypertune"):
         hb = dict(p["hb"])
         if p["use_mra"]:
             hb["max_resource_attr"] = "epochs"
         return gen.build_hyperband(space, hb, seed, searcher="bayesopt" if kind == "hb_bayesopt" else "hypertune",
-                                   search_options=dict(p["search_options"]), points_to_evaluate=pte)
+                                   search_options=_search_options(p, p["search_options"]), points_to_evaluate=pte)
     if kind in ("sync_hb", "dehb"):
         from syne_tune.optimizer.schedulers import synchronous as sy
 
@@ -1255,12 +1362,14 @@ def _raise_key(kind, api, exc_name, msg):
     return f"raised:{api}:{kind}:{exc_name}{disc}"
 
 
-def why_none(obj, kind):
+def why_none(obj, kind, restricted=False):
     """Does the library's own exclusion list consider the finite space used up? (read-only probe of private state;
-    degrades to 'unknown')."""
+    degrades to 'unknown'). Restricted search: is the library's working copy of the list empty?"""
     try:
         lists = []
         s = obj if kind.startswith("direct") else getattr(obj, "searcher", None)
+        if restricted:
+            return "restricted_list_empty" if not s._restrict_configurations else "restricted_list_not_empty"
         if kind == "dehb":
             lists.append(obj._excl_list)
         elif kind in GP_KINDS:
@@ -1417,7 +1526,7 @@ class Monitor:
     def post_suggest(self, vt, next_id, sugg, t):
         orc, o = self.orc, self.orc.o
         if sugg is None:
-            orc.on_none({"running": len(vt.running)}, why_none(self.sched, self.kind))
+            orc.on_none({"running": len(vt.running)}, why_none(self.sched, self.kind, orc.rc_set is not None))
             return
         if sugg.config is not None:
             orc.check_config(sugg.config, "new" if sugg.spawn_new_trial_id else "resume")
@@ -1463,8 +1572,19 @@ def run_scheduler_case(spec, p, o):
         space = build_space(desc)
     orc_probe = Oracle(o, kind, desc, space, None, promise, mra_key="epochs" if use_mra else None, grid=grid)
     orc_probe.prepare_initial()
+    rc = p.get("rc")
+    if rc is None and p.get("restrict"):
+        rc = gen_rc(p["rc_seed"], desc, space, orc_probe.matchstr)
+        if len(rc) < 1 or orc_probe.below_resolution:
+            rc = None  # members could not be told apart from other points by the library's match string
+    p["rc"] = rc
+    if rc is not None:
+        orc_probe.set_restricted(rc)
+        o.count("restricted_histories:" + kind)
     if "pte" in p:
         pte = p["pte"]
+    elif rc is not None:
+        pte = gen_pte_rc(random.Random(p["pte_seed"]), rc, desc, orc_probe.values)
     else:
         pte = gen_pte(random.Random(p["pte_seed"]), {k: v for k, v in desc.items()}, orc_probe.values,
                       orc_probe.lib_mid if orc_probe.ref_ok else None)
@@ -1506,13 +1626,24 @@ def run_scheduler_case(spec, p, o):
           "policy": p["policy"], "seed": spec["seed"] + 2, "max_events": p["max_events"],
           "max_resource_attr": "epochs" if use_mra else None, "checkpointing": p.get("checkpointing", True),
           "fail": fail, "order": p.get("order"), "pbt_restart_levels": True}
+    if rc is not None and kind in GP_KINDS and not p.get("rc_ask_beyond"):
+        # the GP searchers raise when asked again after the list is used up (see findings): mostly not asked
+        vp["max_trials"] = len(orc.rc_set)
     mon = Monitor(orc, p, sched, joblog)
     vt = VTuner(Port(sched), vp, curves, monitors=[mon]).run()
     if vt.raised:
         api, exc_name = vt.raised[0], vt.raised[1]
         if api == "suggest" and exc_name != "resume_of_non_paused":
             key = _raise_key(kind, api, exc_name, str(vt.raised[2]))
-            if o.counters.get("nonfinite_reports"):
+            if orc.rc_set is not None:
+                used_up = len(orc.by_tpl) >= orc.size
+                if orc.n_new == 0 and orc.ref is not None and len(orc.ref) >= orc.size:
+                    key += ":every_restricted_configuration_is_an_initial_point"
+                else:
+                    key += ":restricted_set_used_up" if used_up else ":restricted_set_not_used_up"
+                if used_up:
+                    o.count("restricted_set_used_up_then_raised")
+            elif o.counters.get("nonfinite_reports"):
                 key += ":after_nonfinite_metric_report"
             orc.viol("no_raise", key, {"raised": vt.raised, "n_suggestions": orc.n_new})
         elif api == "suggest":
@@ -1539,8 +1670,16 @@ def run_direct_case(spec, p, o):
     grid = {"num_samples": p["num_samples"], "allow_duplicates": bool(p["allow_duplicates"])} if kind == "direct_grid" else None
     orc = Oracle(o, kind, desc, space, None, not p["allow_duplicates"], scheduler_level=False, grid=grid)
     orc.prepare_initial()
+    rc = p.get("rc")
+    if rc is None and p.get("restrict"):
+        rc = (gen_rc(p["rc_seed"], desc, space, orc.matchstr) or None) if not orc.below_resolution else None
+    if rc is not None:
+        orc.set_restricted(rc)
+        o.count("restricted_histories:" + kind)
     if "pte" in p:
         pte = p["pte"]
+    elif rc is not None:
+        pte = gen_pte_rc(random.Random(p["pte_seed"]), rc, desc, orc.values)
     else:
         pte = gen_pte(random.Random(p["pte_seed"]), desc, orc.values, orc.lib_mid if orc.ref_ok else None)
     orc.pte = pte
@@ -1549,7 +1688,8 @@ def run_direct_case(spec, p, o):
     try:
         if kind == "direct_random":
             s = RandomSearcher(space, metric="loss", points_to_evaluate=pte, random_seed=seed,
-                               allow_duplicates=bool(p["allow_duplicates"]))
+                               allow_duplicates=bool(p["allow_duplicates"]),
+                               restrict_configurations=None if rc is None else [dict(c) for c in rc])
         else:
             s = GridSearcher(space, metric="loss", points_to_evaluate=pte, random_seed=seed,
                              num_samples=dict(p["num_samples"]), shuffle_config=p["shuffle_config"],
@@ -1580,7 +1720,7 @@ def run_direct_case(spec, p, o):
                 break
             o.ev("get_config", n, None if cfg is None else "config")
             if cfg is None:
-                orc.on_none({"pending": len(pend)}, why_none(s, kind))
+                orc.on_none({"pending": len(pend)}, why_none(s, kind, orc.rc_set is not None))
                 break
             o.count("suggestions")
             orc.check_config(dict({k: P["value"] for k, P in desc.items() if P["ctor"] == CONST}, **cfg), "new")
@@ -1629,15 +1769,21 @@ def run_case(spec):
             orc, vt = run_scheduler_case(spec, p, o)
     for c, m, d in contract_viol:
         orc.viol(c, m, d)
+    if orc.rc_set is not None and len(orc.by_tpl) >= orc.size and not orc.viol_keys - {
+            m for m in orc.viol_keys if m.endswith(":restricted_set_used_up")}:
+        o.count("restricted_sets_fully_suggested")
+        o.count("restricted_sets_fully_suggested:" + p["kind"])
     gdesc = _gen_format(orc.desc)
     if gdesc is not None:
         o.count("space_size_crosschecked_with_gen")
         if gen.space_size(gdesc) != orc.size:
             o.inconclusive("space_size_differs_from_gen_space_size")
     shape = sorted((P["ctor"], (dom_count(P) or -1) if P["ctor"] != CONST else 0) for P in orc.desc.values())
-    o.set_sig((p["kind"], orc.tags, shape, p["allow_duplicates"]), nontrivial=orc.post_initial > 0)
+    o.set_sig((p["kind"], orc.tags, shape, p["allow_duplicates"], None if orc.rc_set is None else len(orc.rc_set)),
+              nontrivial=orc.post_initial > 0)
     o.sample = {
         "kind": p["kind"], "space": orc.desc, "points_to_evaluate": orc.pte, "allow_duplicates": p["allow_duplicates"],
+        "restrict_configurations": p.get("rc"),
         "space_size": orc.size, "reference_initial_points": None if orc.ref is None else len(orc.ref),
         "suggestion_tags": "".join(x[0] for x in orc.tags)[:80], "new_trials": orc.n_new,
         "distinct_configs": len(orc.by_tpl), "events": None if vt is None else len(vt.events),
